@@ -25,7 +25,7 @@ def run(tier, seed):
     c.cov.update({
         "evaluations": comparisons,
         "distinct_nontrivial": comparisons,
-        "rule": f"{n} seeded values of each probe type (text-only, attributes, nested with optional/repeated members and a second namespace, restricted, self-referential trees) x "
+        "rule": f"{n} seeded values of each probe type (text-only, attributes, nested with optional/repeated members and a second namespace, restricted, self-referential, and histories of checks with changing restriction sets on one shared value and a clone of it trees) x "
                 "{root, field of a holder with scalar/repeated/optional positions} x {serialised text, deserialised Debug text, restriction verdict, Debug text, clone sharing (Arc::ptr_eq), Default}; bare vs wrapped, compared as strings",
         "samples": ["text-only root-ser: to_string(&v) == to_string(&MultiRef::new(v))", "attributes field-ser: holder with MultiRef<WithAttrs> vs holder with WithAttrs (exercises serialize_attributes)"],
         "differences": len(diffs),
